@@ -294,6 +294,21 @@ def cases(tier, seed):
 # spellings at the edge of the accepted language (refused today, or accepted in some form): if a change of the grammar
 # lets one through, its output must still be well-formed
 NEAR_MISS_TEXTS = [
+    # POKE to addresses that mean something special to the tool today (the two speed pokes) or might tomorrow (the low-memory
+    # and GIME registers a CoCo program pokes routinely), with a converted function in the value
+    '10 POKE 65497,INT(A)', '10 IF A THEN POKE 65497,INT(A):B=1',
+    '10 POKE 65496,BUTTON(0)', '10 IF A THEN POKE 65496,BUTTON(0):B=1',
+    '10 POKE 65495,INT(A)', '10 IF A THEN POKE 65495,INT(A):B=1',
+    '10 POKE 65494,JOYSTK(0)', '10 IF A THEN POKE 65494,JOYSTK(0):B=1',
+    '10 POKE &HFFD7,BUTTON(0)', '10 IF A THEN POKE &HFFD7,BUTTON(0):B=1',
+    '10 POKE 113,INT(A)', '10 IF A THEN POKE 113,INT(A):B=1',
+    '10 POKE 282,VAL(A$)', '10 IF A THEN POKE 282,VAL(A$):B=1',
+    '10 POKE 359,INT(A)', '10 IF A THEN POKE 359,INT(A):B=1',
+    '10 POKE 1024,INT(A)', '10 IF A THEN POKE 1024,INT(A):B=1',
+    '10 POKE 0,INSTR(1,A$,B$)', '10 IF A THEN POKE 0,INSTR(1,A$,B$):B=1',
+    '10 POKE &HFFD9,INT(A)+INT(B)', '10 IF A THEN POKE &HFFD9,INT(A)+INT(B):B=1',
+    '10 POKE 65280,INT(A)', '10 IF A THEN POKE 65280,INT(A):B=1',
+
     # long generated lines (well over 255 characters) that carry the statement separator of BASIC09 - blank, backslash,
     # blank - inside a literal, a comment, a DATA item
     '10 PRINT "LEFT \\ RIGHT";A;B;C;D;E;F;G;H;I;J;K;L', '10 Z=INT(A)+INT(B)+INT(C)+INT(D)+INT(E)+INT(F)+INT(G)+INT(H)+INT(I):REM A \\ B',
